@@ -41,7 +41,10 @@ fn dispatch(req: &Value) -> Value {
 }
 
 fn main() {
-    panic::set_hook(Box::new(|_| {}));
+    // RN_TRACE=1 keeps the default hook (message, location and backtrace on stderr) for replays
+    if std::env::var("RN_TRACE").is_err() {
+        panic::set_hook(Box::new(|_| {}));
+    }
     let stdin = std::io::stdin();
     let stdout = std::io::stdout();
     let mut out = stdout.lock();
